@@ -60,6 +60,7 @@ def allowed(s, m):
 class Prop:
     pid = 'C07'
     props_file = 'Props/C07.v'
+    ops_field = 'ins'
     required_theorems = ['established_only_via_open_exchange', 'unexpected_message_fsm_error',
                          'down_inputs_free_slot', 'at_most_one_confirmed',
                          'established_never_loses', 'collision_survivor']
